@@ -155,10 +155,10 @@ def main(argv):
             out, log = replay_cases(binary, [strip(c) for c in corpus])
             cases = out or []
             ncorpus = len(cases)
-            rep.obligation('corpus: %d recorded schedules (lost wake-up, engine-exit race) replayed on the real driver' % len(corpus),
+            rep.obligation('corpus: %d recorded schedules (lost wake-up, engine-exit race, merged wake-up, blocked notifier) replayed on the real driver' % len(corpus),
                            out is not None and len(cases) == len(corpus))
         gen, log = run_impl(binary, ['--seed', str(vlib.seed()), '--n', str(n), '--shaped', '6' if thorough else '2',
-                                     '--around', '6' if thorough else '4', '--around-runs', '150' if thorough else '24'])
+                                     '--around', '2' if thorough else '0', '--around-runs', '60' if thorough else '6'])
         if gen is None:
             rep.obligation('harness run', False)
             rep.violation({'broken': 'harness run failed', 'log': log[-4000:]}, nofail=True,
@@ -190,13 +190,18 @@ def main(argv):
     # ---- un-instrumented stress run
     stress = []
     if not replay_file:
-        for secs, workers in ([(30, 8), (15, 1), (15, 3)] if thorough else [(4, 8), (3, 1)]):
-            r, log = run_impl(binary, ['--stress', str(secs), '--workers', str(workers)], timeout=secs * 25 + 700)
+        plans = ([(20, 3, ['--mix', '--chaos']), (20, 8, ['--mix']), (10, 1, []), (15, 2, ['--mix', '--chaos'])] if thorough
+                 else [(4, 3, ['--mix', '--chaos']), (3, 8, ['--mix']), (2, 1, [])])
+        for secs, workers, extra in plans:
+            r, log = run_impl(binary, ['--stress', str(secs), '--workers', str(workers), '--seed', str(vlib.seed())] + extra,
+                              timeout=secs * 25 + 700)
             if r is None:
                 r = {'hung': True, 'iterations': 0, 'dump': log[-4000:], 'seconds': 0}
             r['workers'] = workers
+            r['mode'] = ' '.join(extra) or 'plain'
             stress.append(r)
-        rep.obligation('stress: %s iterations of {Enqueue; Enqueue; DrainCommandQueue} made progress throughout'
+        rep.obligation('stress: %s iterations of {Enqueue; [Enqueue]; DrainCommandQueue} (no-op and asynchronous commands, a shared '
+                       'queue, random delays at the yield points): every worker kept returning from its drains'
                        % ' + '.join(str(r['iterations']) for r in stress), not any(r['hung'] for r in stress))
 
     race = race_run(vlib.seed()) if (thorough and not replay_file) else None
@@ -206,10 +211,14 @@ def main(argv):
     rep.coverage.update({
         'evaluations': len(cases),
         'distinct_nontrivial': len({vlib.case_hash({'p': c['progs'], 'g': c['grants']}) for c in cases if nontrivial(c)}),
-        'rule': 'controlled schedules of 1-3 application threads x 1-3 queues (2 contexts) x 1-3 rounds of {0-2 Enqueue; Drain}: '
-                'random with four scheduling biases, every schedule that differs within the first 7 (thorough: 14) steps for four '
-                'small programs, and the two recorded race schedules; non-trivial = a command completed, a Drain returned and '
-                'application, runAsync and engine steps all occur',
+        'rule': 'controlled schedules of 1-3 application threads x 1-3 queues (2 contexts) x 1-3 rounds of {0-2 Enqueue; Drain}, no-op '
+                'and asynchronous commands (answered by the harness GPU after 1-40 cycles): random with four scheduling biases, '
+                'holds (one thread kept at one yield point while anything else can move) and early sends; shaped programs '
+                '(a subscriber kept before its signal while another thread drains; runAsync kept at each of its yield points; '
+                'an engine kept before its first/after its last emptiness test; busy context before idle one) with the three '
+                'continuation policies from every hold point; every schedule that differs within the first 7 (thorough: 14) '
+                'steps for six small programs; four recorded schedules; non-trivial = a command completed, a Drain returned '
+                'and application, runAsync and engine steps all occur',
         'traces_validated_against_impl': len(cases),
         'granted_steps': sum(len(c['steps']) for c in cases),
         'steps_by_thread': dict(steps),
@@ -220,7 +229,7 @@ def main(argv):
         'cases_with_hold': sum(1 for c in cases if c.get('hold')),
         'model_mismatches': len(mism), 'monitor_failures': len(bad), 'unexpected_blocking': len(odd),
         'rank_checked_transitions': nmodel, 'rank_violations': len(rankbad),
-        'stress': [{k: r[k] for k in ('workers', 'iterations', 'seconds', 'hung')} for r in stress],
+        'stress': [{k: r[k] for k in ('workers', 'mode', 'iterations', 'seconds', 'hung')} for r in stress],
         'not_expressible': 'data races in the sense of the Go memory model (CommandQueue.IsRunning, Context.buffers, '
                            'Driver.codeObjGPUAddrs are accessed without locks); the theorems speak about interleavings of '
                            'atomic steps only',
@@ -266,9 +275,11 @@ def main(argv):
                        'replay_cmd': 'VERIF_REPO=<tree> ./check C12 --replay <this file>'}, text=msg)
     elif any(r['hung'] for r in stress):
         r = [r for r in stress if r['hung']][0]
-        rep.violation({'property': PROP, 'what': 'stress loop stopped making progress after %d iterations (%d workers)'
-                       % (r['iterations'], r['workers']), 'goroutines': r.get('dump', '')[-6000:],
-                       'replay_cmd': 'build/bin*/c12 --stress 30 --workers %d' % r['workers']},
+        rep.violation({'property': PROP, 'what': 'a worker of the stress loop stopped returning from DrainCommandQueue after %d '
+                       'iterations in total (%d workers, %s)' % (r['iterations'], r['workers'], r['mode']),
+                       'goroutines': r.get('dump', '')[-6000:],
+                       'replay_cmd': 'build/bin*/c12 --stress 30 --workers %d %s --seed %d'
+                                     % (r['workers'], r['mode'] if r['mode'] != 'plain' else '', vlib.seed())},
                       text='DrainCommandQueue hang under stress after %d iterations' % r['iterations'])
     elif rankbad and not (mism or odd):
         i, k = rankbad[0]
